@@ -246,7 +246,13 @@ func (ex *Exec) global(g *ssa.Global) *Value {
 		return p
 	}
 	p := new(Value)
-	*p = ex.zero(g.Type().(*types.Pointer).Elem())
+	et := g.Type().(*types.Pointer).Elem()
+	*p = ex.zero(et)
+	// sentinel errors of packages whose initialisers are not executed (io.EOF,
+	// sql.ErrNoRows, ...): unique non-nil opaque error values
+	if g.Pkg != nil && !isModulePkg(g.Pkg.Pkg.Path()) && types.Identical(et, types.Universe.Lookup("error").Type()) {
+		*p = ex.mkError(g.Pkg.Pkg.Path() + "." + g.Name())
+	}
 	ex.globals[g] = p
 	return p
 }
